@@ -287,6 +287,9 @@ type chunks[T any] []struct {
 
 // chunkAt loads the fill and data list at a particular chunk
 func (s chunks[T]) chunkAt(chunk commit.Chunk) (bitmap.Bitmap, []T) {
+	if int(chunk) >= len(s) { // the chunk was not committed to yet, it has no values
+		return nil, nil
+	}
 	fill := s[chunk].fill
 	data := s[chunk].data
 	return fill, data
